@@ -281,8 +281,17 @@ def rule_partition(report, prog):
             report.fail('C01-R4', key(f.qname, 'block batching loop'), f.loc(), 'block batching loop not found')
             continue
         lp = loops[0]
-        okk = norm(lp.iter) == 'range(1, last_block_number, %s)' % step and \
-            bool(find(lp, 'last_block = min(i + %s, last_block_number)' % step))
+        # the stride is the attribute value itself or a local bound once to it / to min(attribute, constant >= 1)
+        stride = norm(lp.iter.args[2]) if isinstance(lp.iter, ast.Call) and len(lp.iter.args) == 3 else None
+        src_ok = stride == step
+        if stride is not None and not src_ok and isinstance(lp.iter.args[2], ast.Name):
+            binds = [a for a in walk_no_nested(f.node) if isinstance(a, ast.Assign) and any(norm(t) == stride for t in a.targets)]
+            if len(binds) == 1:
+                v = binds[0].value
+                src_ok = norm(v) == step or (isinstance(v, ast.Call) and norm(v.func) == 'min' and len(v.args) == 2 and
+                                             sorted(norm(a) for a in v.args if norm(a) == step) == [step] and
+                                             any(isinstance(try_const(a), int) and try_const(a) >= 1 for a in v.args))
+        okk = src_ok and bool(find(lp, 'last_block = min(i + %s, last_block_number)' % stride))
         if fn == '_write_ndef_data':
             okk = okk and bool(find(lp, 'block_data = data[(i - 1) * 16:(last_block - 1) * 16]')) and \
                 bool(find(lp, 'self._tag.write_to_ndef_service(block_data, *range(i, last_block))'))
